@@ -17,7 +17,8 @@ Hi == 5
 Kinds == {"int", "uint", "float", "bool", "string", "bytes"}
 \* sized numbers (HTTP transport envelope; the gRPC specification has its own width dimension)
 WideKinds == {"int32", "int64", "uint32", "uint64", "float32"}
-AllKinds == Kinds \cup WideKinds
+\* an untyped attribute (Any): travels in a JSON body; its value is a number, a string or a boolean
+AllKinds == Kinds \cup WideKinds \cup {"any"}
 Locs == {"path", "query", "header", "cookie", "body"}
 Modes == {"required", "optional", "default"}
 Rules == {"none", "min", "max", "xmin", "xmax", "minlen", "maxlen", "enum", "pattern", "format", "cminlen", "cmaxlen"}
@@ -46,6 +47,7 @@ WFAttr(a) ==
   /\ (a.nest \in {"mapkey", "nested_mapkey", "mapkey_alias"} => a.kind \in {"string", "int"})
   /\ (a.kind = "bytes" => a.nest = "direct" /\ a.rule \in {"none", "minlen", "maxlen"})
   /\ (a.kind = "bool" => a.rule = "none")
+  /\ (a.kind = "any" => a.loc = "body" /\ a.nest \in {"direct", "elem", "mapval", "nested"} /\ a.rule = "none" /\ a.mode # "default")
   /\ (a.rule \in {"min", "max", "xmin", "xmax"} => a.kind \in NumKinds)
   /\ (a.rule \in {"minlen", "maxlen"} => a.kind \in {"string", "bytes"})
   /\ (a.rule \in {"pattern", "format"} => a.kind = "string")
@@ -73,6 +75,7 @@ LeafVals(kind) ==
     [] kind \in {"uint32", "uint64"} -> {V(kind, k, "plain", 1) : k \in {0, Lo - 1, Lo, Hi, Hi + 1}}
                                         \cup (IF kind = "uint64" THEN {V(kind, 9, "big", 1)} ELSE {})
     [] kind = "float32" -> {V(kind, k, sh, 1) : k \in {0, Lo - 1, Lo, Hi}, sh \in {"plain", "half"}}
+    [] kind = "any"    -> {V("any", 3, "half", 1), V("any", 9, "big", 1), V("any", 3, "plain", 1), V("any", 1, "bool", 1)}   \* 3.5, 2^53+1, "abc", true
     [] kind = "bool"   -> {V("bool", k, "plain", 1) : k \in {0, 1}}
     [] kind = "string" -> {V("string", k, sh, 1) : k \in {Lo - 1, Lo, 3, Hi, Hi + 1}, sh \in StrShapes}
                           \cup {V("string", 0, "empty", 1)}
